@@ -42,6 +42,11 @@ fn check(prop: &str, tier: Tier) {
             let cov = vh::c08::check(&run);
             run.finish(cov, &["one spelling per logical property per instance; the unknown property has the same value type on every instance (one column has one wire type)", "defaults from our own walk of the reflection database, else the type's neutral value"]);
         }
+        "C03" => {
+            let run = Run::new("C03", tier, "model_checking");
+            let cov = vh::c03::check(&run);
+            run.finish(cov, &["the independent decoder is bound to the document by its worked examples; where the document and the implementation cannot both be right (UniqueId layout, Faces bit order, Content.SourceTypes, undocumented type ids) the document's reading decides and the divergence is a listed finding", "LZ4 blocks decoded by the harness's own decoder, Zstandard by libzstd's streaming API"]);
+        }
         "C06" => {
             let run = Run::new("C06", tier, "model_checking");
             let cov = vh::c06::check(&run);
@@ -380,6 +385,7 @@ fn replay(prop: &str, file: &std::path::Path) {
         "C16" => simple_replay("C16", vh::c16::replay(case)),
         "C15" => simple_replay("C15", vh::c15::replay(case)),
         "C06" => simple_replay("C06", vh::c06::replay(case)),
+        "C03" => simple_replay("C03", vh::c03::replay(case)),
         "C08" => simple_replay("C08", vh::c08::replay(case)),
         "C07" => simple_replay("C07", vh::c07::replay(case)),
         "C13" => simple_replay("C13", vh::c13::replay(case)),
